@@ -88,8 +88,8 @@ CHECKS['C03'] = dict(
    technique='Coq proof (refinement of the receiver machine to a three-counter abstract consumer; contract lemmas over the glue and sender machines) + differential correspondence + pipeline-mode exploration against a functional reference', ref='§5, §6 C03')
 CHECKS['C04'] = dict(
    text='Theorems: a publish un-requests every client it is sent to, the gate opens only when every tracked synchronized client has asked, clients leave the wait set only by CLOSE/timeout, a receiver '
-        'issues requests only from recv(); from any point of any run the publishes that still include a consumer are at most one plus its requests already on the wire (C04_stall_bound); the consumer sends a source at most one message per step and only on an empty poll, an out-of-band message or destroy(), so over any run its requests number at most those steps (C04_request_budget); machines compared with the real classes; stalled-consumer pipelines of real filters measured in pipeline mode (bounded, flat in run length).',
-   note=PROTO_NOTE + ' The schedule-independent credit bound over the network fragment is not proved (partial).',
+        'issues requests only from recv(); from any point of any run the publishes that still include a consumer are at most one plus its requests already on the wire (C04_stall_bound); the consumer sends a source at most one message per step and only on an empty poll, an out-of-band message or destroy(), so over any run its requests number at most those steps (C04_request_budget); both halves across one edge whose request channel invents nothing: frames published while the consumer is tracked <= its spending steps, and published minus sets taken <= the spending steps that handed over no set (C04_edge_flow_bound, C04_backlog_bound, C04_returns_cost_empty_polls); machines compared with the real classes; stalled-consumer pipelines of real filters measured in pipeline mode (bounded, flat in run length).',
+   note=PROTO_NOTE + ' The edge bound is stated over a request channel that neither duplicates nor fabricates messages (hypothesis); how many requests are in flight at the moment of a stall depends on the delay hypothesis and is measured in pipeline mode (partial).',
    technique='Coq proof (local flow-control lemmas) + differential correspondence + pipeline-mode exploration', ref='§5, §6 C04')
 CHECKS['C06'] = dict(
    text='Theorems: eviction on CLOSE and after CONN_TIMEOUT, adoption of the id consumers ask for, acceptance of newer ids, required outputs are waited for - in the table as pruned by the very request, and a required output that closes takes the decision with it (C06_required_output_waited_for, C06_required_output_close_closes_gate; both after repairs 0e63164 / 4c4b712); no lost registration at the receiver (C06_no_lost_registration), the request that was still missing opens the gate and an open gate publishes (C06_last_request_opens_gate, C06_open_gate_publishes), a waiting consumer re-asks every source at every poll timeout (C06_waiting_consumer_asks); the connection handshake step by step (C06_first_contact_not_counted, C06_owed_hello_is_paid, C06_hello_marks_source_heard, C06_heard_consumer_is_registered); machines compared with the real classes; '
